@@ -18,7 +18,7 @@ from hv import Case
 from props import c16
 
 SPEC = {
-    "lean_modules": ["Honeycomb.Props.C17", "Honeycomb.Props.C17Surf", "Honeycomb.Props.C16Grid"],
+    "lean_modules": ["Honeycomb.Props.C17", "Honeycomb.Props.C17Surf", "Honeycomb.Props.C16Grid", "Honeycomb.Props.C16EdgeInsert"],
     "gen": ["anchors"],
     "required_theorems": [
         "C17_classify_frame", "C17_classify_WF", "C17_classify_ok_all_anchored",
@@ -30,6 +30,7 @@ SPEC = {
         "C17_vertex_merge_comm", "C17_vertex_merge_idem", "C17_vertex_merge_assoc", "C17_vertex_merge_lower_dim",
         "C17_vertex_merge_fails_iff", "C17_edge_merge_fails_iff", "C17_face_merge_fails_iff",
         "C16_shift_loop_terminates", "C16_shift_loop_exit", "C17_no_vertex_on_grid_line",
+        "C16_insertOneEdge_shape", "C16_insert_edges_inv",
     ],
     "trusted_base": [
         "Lean 4.33 kernel; axioms propext, Classical.choice, Quot.sound only",
@@ -41,6 +42,12 @@ SPEC = {
         "detect_overlaps, over exact rationals) tied to /repo through the public API: `ogridg capture` = capture_geometry with "
         "Clip::None, then the bounding box of the returned map, compared as identical text with the model and with an independent "
         "Python evaluation (c16.shifted_grid) on polygons built to make the loop run 1..5 times",
+        "hand-written model of the capture pipeline, steps 1-5 (Model/Grisubal.lean, Model/GrisubalInsert.lean: segments, slots, darts, "
+        "edge data, insert_edges with the VertexAnchor::Node writes) + clip (Model/Clip.lean) + classify (Model/Capture.lean), tied through the "
+        "hooks grisubal::verif::{segments, intersection_data, intersection_darts, edge_data, insert_edges, clip_left, clip_right}: stream "
+        "`whole capture pipeline` — the model driven step by step with the HashMap orders read off the implementation; `wf` and the full snapshot "
+        "(anchors included) after step 5, after the clip and after classify_capture as identical text; capture_geometry's own map = the "
+        "hook-by-hook map up to renumbering",
         "Rust harness /verif/harness/hcimpl/src/gris.rs and tools/grisgeo.py + tools/props/c17.py (the oracle)",
         "vtkio's legacy reader (the geometry reaches the kernel through a file)",
     ],
@@ -63,8 +70,18 @@ SPEC = {
             "(k + 3/4), (k + 7/8), (k + 15/16) cells from the bounding-box minimum on one or both axes, so that compute_overlapping_grid "
             "shifts its origin 1..5 times: `ogridg` tie + capture x 3 clips + classify with the full oracle (the oracle's grid is the "
             "independently evaluated shifted grid; catches seeded C17-6); + classify correspondence on hand-made anchored maps. "
-            "thorough: x8.",
+            "+ whole capture pipeline hook by hook (20 zonogons + 20 non-convex exact polygons + 20 polygons with an edge through a corner; "
+            "clips in turn; classify after the clip). thorough: x8.",
     "not_proved": [
+        "clause that is FALSE on the current tree: known finding D17a (a boundary loop lying inside one grid cell is dropped: its points of "
+        "interest are neither vertices nor nodes), reported by the capture oracle on every run; D17b repaired (2e893a8)",
+        "the capture pipeline before classify is now modelled, tied and partly proved (shared with C16): each point of interest lying on a "
+        "new edge is the coordinate of a vertex of the map anchored VertexAnchor::Node(index of the edge) (C16_insertOneEdge_shape, with the "
+        "anchor storages), step 5 preserves well-formedness (C16_insert_edges_inv); `boundary edges are anchored to curves between consecutive "
+        "nodes` is classify_capture's part (C17_* theorems of Props/C17.lean / C17Surf.lean on any map with node anchors). NOT proved: one "
+        "theorem chaining capture + classify; that the node ids (= edge indices, which depend on the HashMap order of step 4) separate "
+        "distinct points of interest of one edge (they do not: all points of interest of one new edge share Node(i) — what the kernel does, "
+        "the C17 statement only asks for `anchored to a node`)",
         "C17_classify_asserts_never_fire: that the three debug_assert!s of classify_capture cannot fail on capture outputs "
         "(C17_classify_ok_all_anchored is the statement WITH the assertions, as in the debug build the harness runs). It is "
         "false on arbitrary well-formed maps: a dangling edge inside a face leaves its tip vertex unanchored and the debug "
